@@ -1,3 +1,5 @@
+import json
+
 from circuits import Component, handler
 from circuits.core import Value
 from circuits.net.events import write
@@ -26,11 +28,21 @@ class Protocol(Component):
         packets = self.__buffer.split(DELIMITER)
         self.__buffer = b''
 
+        # The last element is not terminated by a delimiter (yet): it is only
+        # a packet if it is complete, otherwise the rest is still to come.
+        tail = packets.pop()
+        if tail:
+            try:
+                json.loads(tail.decode('utf-8'))
+                packets.append(tail)
+            except ValueError:
+                self.__buffer = tail
+
         for packet in packets:
             try:
                 self.__process_packet(packet)
             except ValueError:
-                self.__buffer = packet
+                pass
 
     @handler(channel='node_result', priority=100)
     def result_handler(self, event, *args, **kwargs):
